@@ -111,8 +111,9 @@ def cases(draw, tier):
         pens = [draw(halves), draw(halves), draw(halves)]
     else:
         pens = [-1.0, -1.0, -1.0]
-    return {"a": a, "b": b, "kind": kind, "type": t, "pens": pens, "k": draw(st.sampled_from([1, 1, 2, 3])),
-            "l": draw(st.sampled_from([1, 1, 2, 3])), "threads": draw(gen.threads), "a_first": draw(st.booleans())}
+    # group sizes: the three kernels about equally often (seq-seq 1x1, seq-profile 1xn / nx1, profile-profile nxm)
+    k, l = draw(st.sampled_from([(1, 1), (1, 1), (1, 1), (1, 2), (2, 1), (1, 3), (3, 1), (2, 2), (2, 2), (2, 3), (3, 2), (3, 3)]))
+    return {"a": a, "b": b, "kind": kind, "type": t, "pens": pens, "k": k, "l": l, "threads": draw(gen.threads), "a_first": draw(st.booleans())}
 
 
 def strategy(tier):
